@@ -226,7 +226,8 @@ def check_gr_arm(run, pkg, name, dtype, ctype):
             run.ob("R-ALG", fq, f"{name}:{col}:norm", False if reads else None, what, f"normalises counts read from {sorted(reads)}",
                    witness=f"{col} computed from column(s) {sorted(reads)}", loc=loc_of(it, ev))
             continue
-        check_algebra(run, "R-ALG", it, f"{name}:{col}:norm", what, val, ref, atom_of, loc_of(it, ev), positive=True)
+        check_algebra(run, "R-ALG", it, f"{name}:{col}:norm", what, val, ref, atom_of, loc_of(it, ev), positive=True,
+                      prep=lambda e_: sp.simplify(e_.subs(rlo, rhi - sdel)))
     # ---- normalised scalar variant
     gn = post.get("gA_norm", [])
     if name == "scalar":
